@@ -8,9 +8,15 @@ def register(check, not_yet):
           "stable sort for a strict weak order (environment).",
           "SMT (z3) over a symbolic interpretation of the real Python ASTs; CrossHair for sort", "DESIGN.md section 4 C17", "B:pysym + A:crosshair")
     check("C20", "other",
-          "Bounded symbolic verification: compiled core arithmetic and basilisp.lang.numbers run on CrossHair symbolic ints "
-          "(unbounded dividend, enumerated divisors); quot/rem/mod identities decided over exact rationals (z3 Real) by PySym.",
-          "Trusted: CrossHair int model, z3 LIA/LRA; Fraction modelled as exact rational with denominator==1 iff integral.",
+          "Bounded symbolic verification: (A) compiled + - * / and basilisp.lang.numbers run on CrossHair symbolic ints; the inlined call "
+          "form, apply and inline-functions=false must agree. (B) quot / rem / mod are decided on the compiler's own intermediate "
+          "representation: the real compiler generates the Python AST of those core functions from core.lpy on every run, and PySym "
+          "interprets that IR together with the real numbers.py (singledispatch tables and the fraction-normalising decorator read from "
+          "the AST) over z3 Int / exact Real: truncated-quotient, remainder-sign and floored-modulus specifications hold for every "
+          "dividend (unbounded) and symbolic or huge divisors, for proper ratios too, results are ints when integral; add/subtract/"
+          "multiply/divide are exact and their result representation depends only on the operand kinds, symmetrically for + and *.",
+          "Trusted: CrossHair int model, z3 LIA/LRA; Fraction modelled as exact rational with denominator==1 iff integral; runtime "
+          "rest-argument helpers and the trampoline are modelled as intrinsics. Decimal/float contagion is outside.",
           "CrossHair symbolic execution + SMT (z3) over Int/Real", "DESIGN.md section 4 C20", "A:crosshair + B:pysym")
     check("C12", "model_checking",
           "SMT-based bounded model checking of the real Atom/RefBase methods: the methods' ASTs are compiled to a "
